@@ -1016,8 +1016,11 @@ def main():
     #      entries that are garbage; each entry of J^T g is compared with the exactly rounded sum of ITS OWN terms ----
     import math
     from fractions import Fraction
-    wide = [c for c in clean if c.exact and c.step == 1.0 and not c.pairing_only and "rev" in c.modes
-            and (c.prim in ("cumsum", "sum", "diff", "trace", "mean", "dot", "matmul", "tensordot", "einsum", "inner", "convolve", "gradient", "ediff1d", "trapezoid", "cumulative_sum")
+    ALWAYS_WIDE = ("cumsum", "sum", "diff", "trace", "mean", "dot", "matmul", "tensordot", "einsum", "inner", "convolve", "gradient", "ediff1d", "trapezoid", "cumulative_sum")
+    # (products of three or more operands are left out: a Jacobian entry that is zero by cancellation of the other operands
+    #  legitimately leaves a rounding residue of the size of the largest cotangent entry)
+    wide = [c for c in clean if c.exact and c.step == 1.0 and not c.pairing_only and "rev" in c.modes and len(c.args) <= 2
+            and (c.prim in ALWAYS_WIDE
                  or rng.random() < (0.5 if cfg.get("tier") == "thorough" else 0.2))]
     for c in wide:
         for k in c.diff:
@@ -1040,24 +1043,44 @@ def main():
                 if onp.iscomplexobj(y0) or y0.size == 0 or y0.size > 40:
                     continue
                 cols = [onp.asarray(fk_np(as_arg(x, d))) - y0 for d in directions(xa)]          # J e_i, exact
-                gw = onp.array([rng.choice([-1.0, 1.0]) * 10.0 ** rng.choice([-17, -9, -3, 0, 0, 4, 11, 17]) for _ in range(y0.size)]).reshape(y0.shape)
-                vj = onp.asarray(make_vjp(fk)(x)[0](gw if y0.shape else float(gw)))
+                # the size of each Jacobian entry BEFORE cancellation inside it (an entry that is a sum over the other operand,
+                # e.g. a broadcast einsum, may vanish by cancellation and still leave a legitimate rounding residue)
+                others = [a_ for j_, a_ in enumerate(c.args) if j_ != k]
+                if others and all(isinstance(a_, (float, onp.ndarray)) and onp.asarray(a_).dtype.kind == "f" for a_ in others):
+                    def fk_abs(z, k=k, c=c):
+                        a_ = [onp.abs(t) for t in c.args]
+                        a_[k] = z
+                        return onp.asarray(c.f(onp, *a_))
+                    y0a = fk_abs(x)
+                    cols_abs = [onp.maximum(onp.abs(fk_abs(as_arg(x, d)) - y0a), onp.abs(cl)) for d, cl in zip(directions(xa), cols)]
+                else:
+                    cols_abs = [onp.abs(cl) for cl in cols]
+                gws = [onp.array([rng.choice([-1.0, 1.0]) * 10.0 ** rng.choice([-17, -9, -3, 0, 0, 4, 11, 17]) for _ in range(y0.size)]).reshape(y0.shape)]
+                if c.prim in ALWAYS_WIDE:      # deterministic patterns too: one huge entry first / last, magnitudes falling / rising along the flat order
+                    idx_ = onp.arange(y0.size, dtype=float)
+                    gws += [onp.where(idx_ == 0, 3.0e17, idx_ + 1.0).reshape(y0.shape), onp.where(idx_ == y0.size - 1, -3.0e17, idx_ + 1.0).reshape(y0.shape),
+                            (10.0 ** (17 - 7 * (idx_ % 5)) * (1.0 + idx_)).reshape(y0.shape), (10.0 ** (-11 + 7 * (idx_ % 5)) * (1.0 + idx_)).reshape(y0.shape)]
+                    gws += [onp.array([rng.choice([-1.0, 1.0]) * 10.0 ** rng.choice([-17, -9, -3, 0, 0, 4, 11, 17]) for _ in range(y0.size)]).reshape(y0.shape) for _ in range(3)]
+                vjs = [onp.asarray(make_vjp(fk)(x)[0](gw if y0.shape else float(gw))) for gw in gws]
             except Exception:
                 continue
-            out["dist"]["fourth-pass (wide-range cotangent)"] = out["dist"].get("fourth-pass (wide-range cotangent)", 0) + 1
-            if vj.shape != xa.shape:
-                continue
-            for i, col in enumerate(cols):
-                terms = [Fraction(float(a_)) * Fraction(float(b_)) for a_, b_ in zip(col.ravel(), gw.ravel()) if a_ != 0]
-                true = float(sum(terms)) if terms else 0.0
-                mass = float(sum(abs(t) for t in terms)) if terms else 0.0
-                got = float(vj.ravel()[i])
-                if not abs(got - true) <= 1e-9 * mass + 1e-300:
-                    out["bad"].append({"property": "C01", "primitive": c.prim, "configuration": c.tag + " [cotangent entries spanning 34 orders of magnitude]",
-                                       "argnum": k, "what": "entry %d of the VJP is %r, the exactly rounded J^T g entry is %r (its own terms have mass %r)" % (i, got, true, mass),
-                                       "args": [str(onp.asarray(a).tolist()) for a in c.args], "g": gw.ravel().tolist(),
-                                       "site": {"primitive": c.prim, "property": "C01", "class": []}} ) if "C01" in props else None
-                    break
+            out["dist"]["fourth-pass (wide-range cotangent)"] = out["dist"].get("fourth-pass (wide-range cotangent)", 0) + len(gws)
+            found = False
+            for gw, vj in zip(gws, vjs):
+                if vj.shape != xa.shape or found:
+                    continue
+                for i, col in enumerate(cols):
+                    terms = [Fraction(float(a_)) * Fraction(float(b_)) for a_, b_ in zip(col.ravel(), gw.ravel()) if a_ != 0]
+                    true = float(sum(terms)) if terms else 0.0
+                    mass = float(sum(Fraction(float(a_)) * abs(Fraction(float(b_))) for a_, b_ in zip(cols_abs[i].ravel(), gw.ravel())))
+                    got = float(vj.ravel()[i])
+                    if not abs(got - true) <= 1e-9 * mass + 1e-300:
+                        out["bad"].append({"property": "C01", "primitive": c.prim, "configuration": c.tag + " [cotangent entries spanning many orders of magnitude]",
+                                           "argnum": k, "what": "entry %d of the VJP is %r, the exactly rounded J^T g entry is %r (its own terms have mass %r)" % (i, got, true, mass),
+                                           "args": [str(onp.asarray(a).tolist()) for a in c.args], "g": gw.ravel().tolist(),
+                                           "site": {"primitive": c.prim, "property": "C01", "class": []}} ) if "C01" in props else None
+                        found = True
+                        break
     # ---- concurrent pass (C20): the same verdicts when several cases run at once in different threads
     if cfg.get("threads"):
         import threading
